@@ -56,7 +56,7 @@ def execute(case, script=None):
     gv = GraphView(case['spec'])
     ctx = RunCtx(PROP, None)
     ctx.declare_probes('no_plan', 'start_is_goal', 'zero_cost_edge_on_path', 'two_goals_reachable', 'infinite_heuristic_seen',
-                       'self_loop_present', 'random_tie_break', 'shuffled_actions', 'big_graph', 'path_longer_than_1000_steps', 'integer_rewards', 'costs_beyond_2_53', 'nested_run', 'rerun_after_abort', 'aborts_delivered')
+                       'self_loop_present', 'random_tie_break', 'shuffled_actions', 'big_graph', 'path_longer_than_1000_steps', 'integer_rewards', 'goals_without_actions', 'costs_beyond_2_53', 'nested_run', 'rerun_after_abort', 'aborts_delivered')
     sched = make_scheduler(case, script, ctx)
     try:
         return _execute(se, gv, case['cfg'], ctx, sched)
@@ -137,6 +137,8 @@ def _execute(se, gv, cfg, ctx, sched):
         ctx.probe('big_graph')
     if gv.spec.get('intcost'):
         ctx.probe('integer_rewards')
+    if gv.spec.get('bare_goals') and gv.goals:
+        ctx.probe('goals_without_actions')
     if gv.spec.get('giant') and best is not None and best >= 2 ** 53:
         ctx.probe('costs_beyond_2_53')
     seed = cfg['seed'] if (cfg['tie'] == 'random' or cfg['rao']) else None
